@@ -140,14 +140,14 @@ struct Sim {
         shift = 0;
         if (lift) {
             uint64_t top = 0;
-            for (auto &a : spec.areas) top = std::max(top, (uint64_t)a.base + a.size);
+            for (auto &a : spec.areas) top = std::max(top, (uint64_t)a.base + (a.size ? a.size : 1));   /* an area of no words still has a base inside the address space */
             for (auto &r : spec.regs) top = std::max(top, (uint64_t)r.addr + wsize(r.type));
             if (top > 0) shift = (uint32_t)(0x100000000ull - top);
         }
         spreadD = 0; split = 0;
         if (spread && !lift && spec.areas.size() >= 2) {
             uint64_t top = 0;
-            for (auto &a : spec.areas) top = std::max(top, (uint64_t)a.base + a.size);
+            for (auto &a : spec.areas) top = std::max(top, (uint64_t)a.base + (a.size ? a.size : 1));   /* an area of no words still has a base inside the address space */
             for (auto &r : spec.regs) top = std::max(top, (uint64_t)r.addr + wsize(r.type));
             for (size_t k = 1; k < spec.areas.size(); ++k) {
                 uint64_t prev_end = (uint64_t)spec.areas[k - 1].base + spec.areas[k - 1].size;
@@ -440,8 +440,9 @@ struct RegHarness : Harness {
         for (size_t i = 0; i < as.size() && i < 6; ++i) {
             const Json &e = as.at(i); AreaSpec a;
             int64_t b = e.ati(0, 0), s = e.ati(1, 1);
-            if (b < 0) b = 0; if (b > 0x60000) b = 0x60000; if (s < 1) s = 1; if (s > 0x10040) s = 0x10040;
+            if (b < 0) b = 0; if (b > 0x60000) b = 0x60000; if (s < 0) s = 0; if (s > 0x10040) s = 0x10040;
             a.base = (uint32_t)b; a.size = (uint32_t)s; a.mem = e.ati(2, 1) != 0; a.flags = (unsigned)e.ati(3, 3) & 7; a.has_write = e.ati(4, 1) != 0; a.has_read = a.mem || e.ati(5, 1) != 0;
+            if (a.size == 0 && a.base == 0 && !a.mem && !a.has_read && !a.has_write) break;   // this is what the end marker of an area list looks like: the list ends here for library and model alike
             t.areas.push_back(a);
         }
         const Json &rs = j.get("regs");
@@ -480,6 +481,8 @@ struct RegHarness : Harness {
             }
             if (prop == "C05" && r.chance(2, 3)) { a.flags = AF_R | AF_W; a.has_write = true; }
             if (prop == "C03" && !a.mem && r.chance(1, 5)) a.has_read = false;   // a callback area without a read callback (a write-only mailbox), whatever its flags say
+            // an area of no words at all (an optional block configured out): it maps nothing, holds nothing and must not disturb its neighbours
+            if ((prop == "C01" || prop == "C03") && i != wide && r.chance(1, 7) && (a.mem || a.has_read || a.has_write || a.base != 0)) a.size = 0;   // C02 / C04 / C05: see DESIGN section 8 (open observations)
             t.areas.push_back(a);
             // registers in this area
             uint32_t off = (uint32_t)r.range(0, 2);
@@ -538,7 +541,7 @@ struct RegHarness : Harness {
             // bias: start inside / at the edges of a register
             if (nr && r.chance(2, 3)) { const RegSpec &g = t.regs[nr > 65536 && r.chance(1, 2) ? (size_t)r.range(65530, (int64_t)nr - 1) : r.below(nr)]; int64_t a = (int64_t)g.addr + r.range(-1, (int64_t)wsize(g.type)); if (a < 0) a = 0; addr = (uint32_t)a; if (r.chance(1, 2)) n = r.range(1, wsize(g.type) + 1); }
             if (k == "corrupt") { // stay inside one area so that the overwrite is well-defined
-                const AreaSpec &a = t.areas[r.below(t.areas.size())]; addr = a.base + (uint32_t)(a.size > 65540 && r.chance(1, 2) ? r.range(65530, (int64_t)a.size - 1) : r.below(a.size)); if (n < 1) n = 1; if (addr + n > a.base + a.size) n = a.base + a.size - addr;
+                const AreaSpec &a = t.areas[r.below(t.areas.size())]; addr = a.base + (uint32_t)(a.size > 65540 && r.chance(1, 2) ? r.range(65530, (int64_t)a.size - 1) : (a.size ? r.below(a.size) : 0)); if (n < 1) n = 1; if (addr + n > a.base + a.size) n = a.base + a.size - addr;
             }
             o["addr"] = (long long)addr;
             if (k == "bw" && hi > 0x10000 && nr && r.chance(1, 6)) {
